@@ -1517,21 +1517,24 @@ def convert_mul_max_to_abs_or_lrelu(op: Operation, arch, nng) -> Operation:
             # check that it is a constant
             if const.type != Op.Const:
                 return op
-            # Remove the Mul from the shared input's consumers
-            shared_in.consumer_list.remove(mul)
         else:
             return op
 
-        val = const.outputs[0].values
-        if val >= 0:
+        # The decision is taken on the real value of the constant, (q - zero point) * scale, not on its quantised value q:
+        # Max(x, c * x) is LeakyRelu(x) with alpha = c only for 0 <= c <= 1, and Abs(x) only for c = -1
+        const_quant = const_tens.quantization
+        if const_quant is None or const_quant.scale_f32 is None or const_quant.zero_point is None:
+            return op
+        alpha_scalar = int(const.outputs[0].values) - int(const_quant.zero_point)
+        val = alpha_scalar * np.double(const_quant.scale_f32)
+        if 0 <= val <= 1:
             new_op = Op.LeakyRelu
             op.attrs["alpha"] = val
             # to produce bit exact results, the alpha is not enough;
             # save additional scaling info in attr "alpha_scale", to be used as input
             # to the LUT construction
-            alpha_scalar = const_tens.values - const_tens.quantization.zero_point
             mul_ifm_scale = np.double(ifm.quantization.scale_f32)
-            mul_ifm2_scale = np.double(const_tens.quantization.scale_f32)
+            mul_ifm2_scale = np.double(const_quant.scale_f32)
             mul_ofm_scale = np.double(mul_ofm.quantization.scale_f32)
             alpha_scale, alpha_shift = scaling.elementwise_mul_scale(mul_ifm_scale, mul_ifm2_scale, mul_ofm_scale)
             op.attrs["alpha_scaling"] = (alpha_scalar, alpha_scale, alpha_shift)
@@ -1539,6 +1542,9 @@ def convert_mul_max_to_abs_or_lrelu(op: Operation, arch, nng) -> Operation:
             new_op = Op.Abs
         else:
             return op
+
+        # Remove the Mul from the shared input's consumers
+        shared_in.consumer_list.remove(mul)
 
         op.type = new_op
         op.name = op.name.replace("Maximum", new_op.name)
